@@ -23,7 +23,7 @@ from typing import Any
 
 from .. import core
 
-GENERATED = ["History"]
+GENERATED = ["History", "Globals"]
 
 FILES = {
     "a.py": 'x = int(0)\ny = list()\nprint("")\nnames = ["a"]\nz = not not x\ndd = {"a": 1}\ng1 = dd.get("a", None)\ng2 = int("7", 10)\ng3 = dd.setdefault("k", None)\ng4 = round(1.5, 0)\n',
@@ -453,6 +453,7 @@ def run(ctx) -> None:
                         {"how": f"copy test/data/{name} to o_{name} and c_{name} (and the other picked files likewise) into an empty directory; run python -m refurb FILES --enable-all --quiet in the order '{oname}'", "files_in_run": len(order), "file": name, "differing_diagnostics": diff, "alone": want[:6]},
                     )
                     break
+        whole_run_extension(ctx, res, root, FILES, aw_files)
     res.sample({"files": names, "reference_report_head": ref["filename"][1][:300]})
     res.assumptions += [
         "mypy's cache handling (incremental flags set in main.py:161-163) and concurrent processes are exercised, not modelled: C11 is partial there",
@@ -464,3 +465,393 @@ def run(ctx) -> None:
 def replay(path) -> int:
     print(Path(path).read_text())
     return 0
+
+
+# =====================================================================================================================
+# Whole-run extension: regrouping on the real reports of random partitions, and generated in-process histories
+# (Props/C11 `run_grouping_*`, `run_one_by_one`, `history_independent`; Model/History.lean; Generated/Globals.lean)
+
+WORKER_H = textwrap.dedent(
+    """
+    import gc, json, sys, zlib
+    import refurb.main as m
+    from refurb.main import format_errors
+    from refurb.settings import load_settings
+
+    real = m.get_source_lines
+    log = []
+
+    class Spy:
+        # stands where `get_source_lines` stands: every lookup the `# noqa` filter makes is recorded with what it got
+        def __call__(self, path):
+            lines = real(path)
+            log.append([path, zlib.crc32("\\n".join(lines).encode("utf8", "surrogatepass"))])
+            return lines
+
+        def __getattr__(self, name):
+            return getattr(real, name)
+
+    m.get_source_lines = Spy()
+
+    def now(path):
+        f = getattr(real, "__wrapped__", real)
+        try:
+            return zlib.crc32("\\n".join(f(path)).encode("utf8", "surrogatepass"))
+        except Exception:
+            return -1
+
+    plan = json.load(open(sys.argv[1]))
+    limit0 = sys.getrecursionlimit()
+    out = []
+    for step in plan:
+        if step["op"] == "write":
+            open(step["path"], "w").write(step["text"])
+            continue
+        if step["op"] == "unlink":
+            import os
+            os.unlink(step["path"])
+            continue
+        del log[:]
+        rec = {}
+        try:
+            s = load_settings(step["argv"])
+            errs = m.run_refurb(s)
+            rec["out"] = format_errors(errs, s)
+            rec["rc"] = 1 if errs else 0
+            del errs
+        except BaseException as e:
+            rec["raised"] = type(e).__name__
+        rec["lookups"] = [[p, c, now(p)] for p, c in log]
+        rec["digits"] = sys.get_int_max_str_digits() if hasattr(sys, "get_int_max_str_digits") else 0
+        rec["limit_moved"] = sys.getrecursionlimit() - limit0
+        out.append(rec)
+        gc.collect()
+    json.dump(out, open(sys.argv[2], "w"))
+    """
+)
+
+BOOM_PLUGIN = textwrap.dedent(
+    """
+    from dataclasses import dataclass
+    from mypy.nodes import CallExpr
+    from refurb.error import Error
+
+
+    @dataclass
+    class ErrorInfo(Error):
+        prefix = "XYZ"
+        code = 999
+        msg: str = "boom"
+
+
+    def check(node: CallExpr, errors: list[Error]) -> None:
+        raise RuntimeError("a check that raises")
+    """
+)
+
+
+def to_items(out: str) -> tuple[list[dict[str, Any]], list[str]]:
+    diags, other = core.parse_plain(out)
+    return [{"k": "diag", "file": x["file"], "line": x["line"], "col": x["col"] - 1, "prefix": x["prefix"], "code": x["code"], "msg": x["msg"]} for x in diags], other
+
+
+def gen_history(rng, hid: int, base: dict[str, str], pool: list[str], n_steps: int) -> list[dict[str, Any]]:
+    """a sequence of steps over the file set `base`: runs with varying file subsets and settings, edits, and runs that fail"""
+    settings_variants = [[], ["--sort", "error"], ["--disable", "FURB123"], ["--ignore", "FURB105"], ["--python-version", "3.9"], ["--format", "github"]]
+    files = dict(base)
+    steps: list[dict[str, Any]] = []
+    kinds = ["run", "run", "edit", "fail", "run", "settings", "edit", "fail"]
+    rng.shuffle(kinds)
+    kinds = ["run"] + kinds[: n_steps - 2] + ["run"]
+    last_argv: list[str] | None = None
+    for k in kinds:
+        live = [n for n in pool if n in files]
+        if k in ("run", "settings"):
+            sub = sorted(rng.sample(live, rng.randint(2, min(5, len(live)))))
+            if k == "run" and last_argv is not None and rng.random() < (0.8 if steps and steps[-1]["op"] == "write" else 0.4):
+                argv = last_argv  # the same run again: the case a cache is written for
+            else:
+                argv = [*sub, *(rng.choice(settings_variants) if k == "settings" or rng.random() < 0.3 else []), "--enable-all", "--quiet"]
+            last_argv = argv
+            steps.append({"op": "run", "argv": argv, "expect": "good"})
+        elif k == "edit":
+            # a file the last run read, if there is one: what a stale cache, or a table keyed by position, would get wrong
+            read = [a for a in (last_argv or []) if a in files and a in pool]
+            n = rng.choice(read or live)
+            src = files[n]
+            lines = src.split("\n")
+            how = rng.choice(["noqa", "noqa", "unnoqa", "fix", "prepend", "prepend"])
+            triggers = [i for i, l in enumerate(lines) if any(t in l for t in ("int(0)", "list()", 'print("")', 'str("")', "bool(True)", "for a, b in")) and "# noqa" not in l and len(l) < 200]
+            if how == "noqa" and triggers:
+                i = rng.choice(triggers)
+                lines[i] = lines[i] + "  # noqa"
+            elif how == "unnoqa" and any("  # noqa" in l for l in lines):
+                lines = [l.split("  # noqa")[0] for l in lines]
+            elif how == "fix" and any("int(0)" in l for l in lines):
+                lines = [l.replace("int(0)", "0", 1) for l in lines]
+            else:
+                lines = ["", *lines]  # every later diagnostic moves down one line: a position-keyed table would notice
+            new = "\n".join(lines)
+            files[n] = new
+            steps.append({"op": "write", "path": n, "text": new})
+        else:
+            how = rng.choice(["syntax", "missing", "mypyflag", "plugin"])
+            good = rng.choice(live)
+            if how == "syntax":
+                files["halftyped.py"] = "def broken(:\n"
+                steps.append({"op": "write", "path": "halftyped.py", "text": files["halftyped.py"]})
+                steps.append({"op": "run", "argv": [good, "halftyped.py", "--enable-all", "--quiet"], "expect": "mypy-error"})
+            elif how == "missing":
+                steps.append({"op": "run", "argv": [good, "no_such_file.py", "--enable-all", "--quiet"], "expect": "mypy-error"})
+            elif how == "mypyflag":
+                steps.append({"op": "run", "argv": [good, "--enable-all", "--quiet", "--", "--no-such-mypy-flag"], "expect": "mypy-error"})
+            else:
+                steps.append({"op": "run", "argv": [good, "--load", "boom_plugin", "--enable-all", "--quiet"], "expect": "raises"})
+    return steps
+
+
+def whole_run_extension(ctx, res, root: Path, files6: dict[str, str], aw_files: dict[str, str]) -> None:
+    rng = ctx.rng("c11-whole-run")
+    quick = ctx.quick
+    # ---------------------------------------------------------------------------------------------------------------
+    # the file universe: the probe set and the awkward set, side by side in one directory
+    base: dict[str, str] = {n: s for n, s in files6.items()}
+    for n, s in aw_files.items():
+        if n in ("deep.py", "part265.py", "part290.py", "first.py", "left/util.py", "right/util.py", "last.py"):
+            base["aw/" + n] = s
+    base["boom_plugin.py"] = BOOM_PLUGIN
+    pool = [n for n in base if n != "boom_plugin.py"]
+    table = ctx.driver.batch([{"verb": "globals_table"}])[0] if ctx.driver.available() else None
+
+    # ---- plans: histories, and partitions for the regrouping check
+    n_hist = 4 if quick else 12
+    plans = [gen_history(rng, h, base, pool, 6 if quick else 10) for h in range(n_hist)]
+    part_files = [n for n in pool if not n.startswith("aw/part") and n != "aw/deep.py"]
+    partitions: list[tuple[str, list[list[str]]]] = []
+    for pi in range(2 if quick else 8):
+        sh = part_files[:]
+        rng.shuffle(sh)
+        k = rng.randint(2, 4)
+        cuts = sorted(rng.sample(range(1, len(sh)), k - 1))
+        groups = [sh[a:b] for a, b in zip([0, *cuts], [*cuts, len(sh)])]
+        partitions.append((["filename", "error"][pi % 2], groups))
+
+    # ---- lay out the directories: one per history for the worker, one per file STATE for the fresh runs
+    hdirs: list[Path] = []
+    fresh_jobs: list[tuple[int, int, Path, list[str]]] = []  # (history, step index, directory holding that state, argv)
+    for h, plan in enumerate(plans):
+        hd = root / f"hist{h}"
+        hd.mkdir()
+        write_files(hd, base)
+        (hd / "_plan.json").write_text(json.dumps(plan))
+        (hd / "_worker_h.py").write_text(WORKER_H)
+        hdirs.append(hd)
+        state = dict(base)
+        sd: Path | None = None
+        version = 0
+        for i, st in enumerate(plan):
+            if st["op"] == "write":
+                state[st["path"]] = st["text"]
+                sd = None
+            else:
+                if sd is None:
+                    sd = root / f"state{h}_{version}"
+                    version += 1
+                    sd.mkdir()
+                    write_files(sd, state)
+                fresh_jobs.append((h, i, sd, st["argv"]))
+    pd = root / "parts"
+    pd.mkdir()
+    write_files(pd, {n: base[n] for n in part_files})
+    group_jobs: dict[tuple[tuple[str, ...], str], Any] = {}
+    for pi, (by, groups) in enumerate(partitions):
+        # the one-by-one comparison (every file alone) is made for the first partition in the quick tier, for all in the thorough one
+        singles = [[n] for g in groups for n in g] if (pi == 0 or not quick) else []
+        if quick:
+            singles = rng.sample(singles, min(4, len(singles)))
+        for g in [*groups, [n for g in groups for n in g], *singles]:
+            group_jobs.setdefault((tuple(g), by), None)
+
+    def run_worker(hd: Path) -> Any:
+        p = subprocess.run([core.PY, "_worker_h.py", "_plan.json", "_out.json"], cwd=hd, capture_output=True, text=True, timeout=900, env=core.py_env())
+        if p.returncode != 0:
+            return {"error": p.stderr[-1500:]}
+        return json.loads((hd / "_out.json").read_text())
+
+    with ThreadPoolExecutor(16) as ex:
+        wf = [ex.submit(run_worker, hd) for hd in hdirs]
+        fresh_once = {(str(sd), tuple(argv)): None for (_, _, sd, argv) in fresh_jobs}  # the same argv on the same file state: one fresh run
+        for key in fresh_once:
+            fresh_once[key] = ex.submit(core.refurb_cli, list(key[1]), Path(key[0]))
+        gf = {k: ex.submit(core.refurb_cli, [*k[0], "--sort", k[1], "--enable-all", "--quiet"], pd) for k in group_jobs}
+        worker_out = [f.result() for f in wf]
+        fresh_out = [fresh_once[(str(sd), tuple(argv))].result() for (_, _, sd, argv) in fresh_jobs]
+        group_out = {k: f.result() for k, f in gf.items()}
+
+    # ---------------------------------------------------------------------------------------------------------------
+    # (1) regrouping: sorted merge of the group reports = the joint report (model verb `regroup` on the REAL reports);
+    #     what the joint report says about a file = the report of that file alone (model verb `about`)
+    reqs: list[dict[str, Any]] = []
+    metas: list[tuple[str, Any]] = []
+    for by, groups in partitions:
+        joint_files = tuple(n for g in groups for n in g)
+        jrc, jout, jerr = group_out[(joint_files, by)]
+        jitems, jother = to_items(jout)
+        gitems = []
+        clean = not jerr.strip() and not jother
+        for g in groups:
+            rc, out, err = group_out[(tuple(g), by)]
+            it, other = to_items(out)
+            clean = clean and not err.strip() and not other
+            gitems.append(it)
+        res.case(("regroup", by, json.dumps(groups)))
+        res.bump(f"regroup_partitions_{len(groups)}_groups")
+        res.bump("regroup_group_runs", len(groups))
+        if not clean:
+            res.violate("a run of the regrouping check wrote to stderr or printed a line that is not a diagnostic", {"kind": "stderr", "where": "regroup"}, {"groups": groups, "by": by, "stdout": jout[:400], "stderr": jerr[-400:]})
+            continue
+        reqs.append({"verb": "regroup", "groups": gitems, "by": by})
+        metas.append(("regroup", (by, groups, jitems, gitems)))
+        for g in groups:
+            for n in g:
+                if ((n,), by) not in group_out:
+                    continue
+                rc, out, err = group_out[((n,), by)]
+                solo, _ = to_items(out)
+                reqs.append({"verb": "about", "items": jitems, "path": n})
+                metas.append(("about", (by, groups, n, solo)))
+                res.bump("one_by_one_files")
+    if ctx.driver.available():
+        for a, (kind, meta) in zip(ctx.driver.batch(reqs), metas):
+            if kind == "regroup":
+                by, groups, jitems, gitems = meta
+                how_r = "write harness/props/c11.py:FILES (+ the awkward files under aw/) into an empty directory with an empty pyproject.toml; run python -m refurb GROUP --sort BY --enable-all --quiet for every group and for all files together"
+                if not all(a["each_sorted"]):
+                    bad = [g for g, ok in zip(groups, a["each_sorted"]) if not ok]
+                    res.violate(f"the report of a group of files is not in the documented order (--sort {by})", {"kind": "documented-order", "by": by, "where": "group"}, {"group": bad[0], "how": how_r})
+                elif a["sorted"] != jitems:
+                    extra = [x for x in jitems if x not in a["sorted"]][:3]
+                    missing = [x for x in a["sorted"] if x not in jitems][:3]
+                    res.violate(
+                        "checking independent files together does not give the sorted merge of the reports of the groups checked one by one",
+                        {"kind": "partition", "where": "regroup", "by": by},
+                        {"groups": groups, "by": by, "only_together": extra, "only_in_groups": missing, "joint_head": jitems[:4], "merged_head": a["sorted"][:4], "how": how_r},
+                    )
+                if a["merged"] != a["sorted"]:
+                    res.disagree("regroup-merge-vs-sort", {"groups": groups, "by": by}, a["merged"][:3], a["sorted"][:3])
+            else:
+                by, groups, n, solo = meta
+                if a != solo:
+                    res.violate(
+                        f"what a joint run says about {n} is not what a run on {n} alone says",
+                        {"kind": "partition", "where": "one-by-one", "file": n},
+                        {"file": n, "joint_files": [x for g in groups for x in g], "by": by, "in_joint_run": a[:5], "alone": solo[:5],
+                         "how": "write the files of harness/props/c11.py into an empty directory with an empty pyproject.toml; run python -m refurb FILES --sort BY --enable-all --quiet with all files and with this file only"},
+                    )
+
+    # ---------------------------------------------------------------------------------------------------------------
+    # (2) histories: every run inside the worker process against the same argv in a fresh process on the same file state
+    fresh_by = {(h, i): r for (h, i, _, _), r in zip(fresh_jobs, fresh_out)}
+    hreqs: list[dict[str, Any]] = []
+    hmetas: list[Any] = []
+    for h, (plan, wout) in enumerate(zip(plans, worker_out)):
+        if isinstance(wout, dict):
+            res.disagreements.append({"where": "history-worker", "reason": wout["error"][-600:]})
+            continue
+        runs = [i for i, st in enumerate(plan) if st["op"] == "run"]
+        res.bump("histories")
+        res.bump("history_runs", len(runs))
+        replay_plan = [{k: v for k, v in st.items() if k != "expect"} for st in plan]
+        failed_before = False
+        edited_before = False
+        seen_argv: set[str] = set()
+        model_hist = []
+        for j, (i, rec) in enumerate(zip(runs, wout)):
+            st = plan[i]
+            edited_before = edited_before or any(s["op"] == "write" for s in plan[(runs[j - 1] if j else 0):i])
+            res.case(("history-run", h, i, st["expect"], failed_before, edited_before, json.dumps(st["argv"]) in seen_argv), nontrivial=j > 0)
+            res.bump("history_run_" + st["expect"])
+            if failed_before and st["expect"] == "good":
+                res.bump("history_good_run_after_a_failed_one")
+            if edited_before and st["expect"] == "good":
+                res.bump("history_good_run_after_an_edit")
+            if json.dumps(st["argv"]) in seen_argv:
+                res.bump("history_same_argv_again")
+            seen_argv.add(json.dumps(st["argv"]))
+            frc, fout, ferr = fresh_by[(h, i)]
+            how_h = ("write the files of the replay into an empty directory; in ONE python process call refurb.main.run_refurb(load_settings(argv)) for every `run` step and apply the "
+                     "`write` steps in between (harness/props/c11.py:WORKER_H does this); compare format_errors(...) of the step with `python -m refurb <argv>` in a fresh process on the files as they are at that step")
+            if "raised" in rec:
+                ok = frc != 0 and rec["raised"] in ferr
+                observed = "raised " + rec["raised"]
+            else:
+                ok = rec["out"] == fout.rstrip("\n") and rec["rc"] == frc
+                observed = rec["out"]
+            if not ok:
+                a_l, b_l = set(observed.split("\n")), set(fout.rstrip("\n").split("\n"))
+                res.violate(
+                    f"run #{j + 1} of a history inside one process differs from the same run in a fresh process"
+                    + (" (after a failed run)" if failed_before else "") + (" (after an edit)" if edited_before else ""),
+                    {"kind": "same-process-history", "after_failed_run": failed_before, "after_edit": edited_before},
+                    {"files": {k: (v if len(v) < 600 else v[:200] + " ... (" + str(len(v)) + " chars)") for k, v in base.items()}, "history": replay_plan, "step": i, "argv": st["argv"],
+                     "in_process": observed[:600], "fresh_process": fout[:600], "fresh_rc": frc, "fresh_stderr": ferr[-300:],
+                     "only_in_process": sorted(a_l - b_l)[:5], "only_fresh": sorted(b_l - a_l)[:5], "how": how_h},
+                )
+                break
+            if rec.get("limit_moved"):
+                res.violate("a run leaves the interpreter's recursion limit changed", {"kind": "same-process-interpreter-setting", "setting": "recursionlimit"},
+                            {"history": replay_plan, "step": i, "moved_by": rec["limit_moved"], "how": how_h})
+                break
+            failed_before = failed_before or st["expect"] != "good"
+            # the same run for the model: the `# noqa` lookups it made (key = path, value = what the file holds NOW)
+            paths = sorted({p for p, _, _ in rec["lookups"]})
+            model_hist.append({"rec": rec, "paths": paths})
+        if table is not None and len(model_hist) == len(runs):
+            names = [d[0] for d in table["disciplines"]]
+            lc = names.index("refurb.main.get_source_lines()") if "refurb.main.get_source_lines()" in names else None
+            dg = names.index("sys.int_max_str_digits") if "sys.int_max_str_digits" in names else None
+            rl = names.index("sys.recursionlimit") if "sys.recursionlimit" in names else None
+            script = table["script"]
+            def phase_of(c: int, op: str) -> int | None:
+                return next((k for k, ins in enumerate(script) if ins["i"] == "free" and {"c": c, "op": op} in ins["allowed"]), None)
+            if lc is not None and phase_of(lc, "memo:stable") is not None:
+                at = phase_of(lc, "memo:stable")
+                all_paths = sorted({p for mh in model_hist for p in mh["paths"]})
+                hist_json = []
+                for mh in model_hist:
+                    rec = mh["rec"]
+                    acts = [{"c": lc, "op": "memo:stable", "n": all_paths.index(p)} for p, _, _ in rec["lookups"]]
+                    vals = [{"c": lc, "n": all_paths.index(p), "v": cur} for p, _, cur in rec["lookups"]]
+                    hist_json.append({"vals": vals, "phases": [{"at": at, "acts": acts}]})
+                hreqs.append({"verb": "run_history", "only": lc, "history": hist_json})
+                hmetas.append((h, [[c for _, c, _ in mh["rec"]["lookups"]] for mh in model_hist], replay_plan))
+    if hreqs:
+        answers = ctx.driver.batch(hreqs)
+        for a, (h, real_obs, replay_plan) in zip(answers, hmetas):
+            for j, (run, real) in enumerate(zip(a["runs"], real_obs)):
+                res.bump("history_model_lookups", len(real))
+                if run["obs"] != real:
+                    res.disagree("history-line-cache", {"history": replay_plan, "run": j}, run["obs"][:6], real[:6])
+                    break
+                if a["no_leaks"] and run["obs"] != run["fresh"]:
+                    res.disagree("history-model-fresh", {"history": replay_plan, "run": j}, run["obs"][:6], run["fresh"][:6])
+                    break
+    if table is not None:
+        for name, disc in table["disciplines"]:
+            res.bump("globals_" + disc)
+        if not table["no_leaks"]:
+            res.notes.append("Generated/Globals.lean: a component is classified `leaks`: " + ", ".join(n for n, d in table["disciplines"] if d == "leaks"))
+        res.sample({"globals": table["disciplines"]})
+    if plans:
+        res.sample({"history": [{k: (v if k != "text" else v[:60]) for k, v in st.items()} for st in plans[0]]})
+    res.rule += (
+        "; whole-run extension: random partitions of the probe + awkward files into 2-4 groups (quick 2, thorough 8) x a sort order: every group, every single file and all files "
+        "together are run (fresh processes), the model's `regroup` (stable sort of the concatenated group reports = k-way merge) must give the joint report and `about` (filter by "
+        "path) the solo report; generated in-process histories (quick 4 x 6 steps, thorough 12 x 10): runs over random file subsets with varying settings, edits (`# noqa` added / "
+        "removed, a fix, a line inserted at the top), failing runs (syntax error, missing file, bad mypy flag, a loaded check that raises), every run compared with a fresh process on "
+        "the same file state; the `# noqa` line lookups of every run are replayed through Model/History.lean `runIn` on the regenerated script. Non-trivial = a run that is not the first of its process"
+    )
+    res.assumptions += [
+        "CwdFixed / CodeFixed: the working directory and the source of imported modules (refurb's own and `--load`ed ones) do not change while the process lives (sys.path, sys.modules are constants then)",
+        "a run reads no process-global state of refurb other than the components the scan of /repo/refurb finds (Generated/Globals.lean); state inside mypy is not modelled (exercised by the histories)",
+    ]
